@@ -1,7 +1,7 @@
 (** * ValidationTemplates: the loops of SyscallGroup.toSyscallsWithConditions as REGENERATED decision templates
     (gen/GenCodegen.v: [names_loop_template], [nwc_loop_template]) and their meaning as transformers of the entry
     list and the "problem recorded" flag. The expected templates mean exactly [names_loop] / [nwc_loop] of Policy.v. *)
-From Coq Require Import List NArith Bool String.
+From Coq Require Import List NArith Bool String Lia.
 From Seccomp Require Import Words Machine Result Assembler Policy.
 Import ListNotations.
 Open Scope N_scope.
@@ -176,3 +176,262 @@ Proof.
   destruct (names_loop ai (g_names g) [] false) as [es1 bad1]. rewrite expected_nwc_is_nwc_loop.
   destruct (nwc_loop ai (g_nwc g) es1 bad1) as [es2 bad2]. reflexivity.
 Qed.
+
+(** ** ArgumentConditions.Validate as a REGENERATED template: the conditions under which a problem is recorded,
+    once for the list ([vt_list]) and once per condition ([vt_each]); no problem recorded = valid. *)
+Inductive vexp :=
+| VLenZero                                  (* len(a) == 0 *)
+| VArgLt (k:N) | VArgGt (k:N) | VArgGe (k:N) | VArgLe (k:N) | VArgEq (k:N)      (* condition.Argument against a constant *)
+| VOpInvalid                                (* !condition.Operation.valid() *)
+| VTrue | VFalse
+| VNot (a:vexp) | VOr (a b:vexp) | VAnd (a b:vexp)
+| VXOther (src:string).
+
+Record validate_tpl := { vt_list : list vexp; vt_each : list vexp }.
+
+Fixpoint vx_known (e:vexp) : bool :=
+  match e with
+  | VXOther _ => false
+  | VNot a => vx_known a
+  | VOr a b | VAnd a b => vx_known a && vx_known b
+  | _ => true
+  end.
+(** an expression outside the loop can only speak about the list *)
+Fixpoint vx_listlevel (e:vexp) : bool :=
+  match e with
+  | VLenZero | VTrue | VFalse => true
+  | VNot a => vx_listlevel a
+  | VOr a b | VAnd a b => vx_listlevel a && vx_listlevel b
+  | _ => false
+  end.
+
+Fixpoint vx_eval (e:vexp) (empty:bool) (arg:N) (opbad:bool) : bool :=
+  match e with
+  | VLenZero => empty
+  | VArgLt k => arg <? k
+  | VArgGt k => k <? arg
+  | VArgGe k => k <=? arg
+  | VArgLe k => arg <=? k
+  | VArgEq k => arg =? k
+  | VOpInvalid => opbad
+  | VTrue => true
+  | VFalse => false
+  | VNot a => negb (vx_eval a empty arg opbad)
+  | VOr a b => vx_eval a empty arg opbad || vx_eval b empty arg opbad
+  | VAnd a b => vx_eval a empty arg opbad && vx_eval b empty arg opbad
+  | VXOther _ => false
+  end.
+
+Fixpoint vx_consts (e:vexp) : list N :=
+  match e with
+  | VArgLt k | VArgGt k | VArgGe k | VArgLe k | VArgEq k => [k]
+  | VNot a => vx_consts a
+  | VOr a b | VAnd a b => vx_consts a ++ vx_consts b
+  | _ => []
+  end.
+
+Definition is_nil {A} (l:list A) : bool := match l with [] => true | _ => false end.
+
+(** what the template means: valid = no problem recorded *)
+Definition tpl_conds_valid (t:validate_tpl) (cs:list cnd) : bool :=
+  negb (existsb (fun e => vx_eval e (is_nil cs) 0 false) (vt_list t)) &&
+  forallb (fun c => negb (existsb (fun e => vx_eval e false (c_arg c) (negb (op_valid (c_op c)))) (vt_each t))) cs.
+
+(** *** deciding "the template means conds_valid" by evaluation at finitely many argument indices *)
+Definition reps (ks:list N) : list N := 0 :: flat_map (fun k => [k - 1; k; k + 1]) ks.
+
+Definition each_problem (es:list vexp) (a:N) (ob:bool) : bool := existsb (fun e => vx_eval e false a ob) es.
+
+Definition validate_ok (t:validate_tpl) : bool :=
+  forallb vx_known (vt_list t) && forallb vx_listlevel (vt_list t) && forallb vx_known (vt_each t) &&
+  existsb (fun e => vx_eval e true 0 false) (vt_list t) &&
+  negb (existsb (fun e => vx_eval e false 0 false) (vt_list t)) &&
+  forallb (fun a => forallb (fun ob => Bool.eqb (each_problem (vt_each t) a ob) (negb ((a <=? 5) && negb ob))) [true; false])
+          (reps (5 :: flat_map vx_consts (vt_each t))).
+
+(** the largest constant below [a] *)
+Fixpoint max_below (ks:list N) (a:N) : option N :=
+  match ks with
+  | [] => None
+  | k :: r => match max_below r a with
+              | Some m => if (k <? a) && (m <? k) then Some k else Some m
+              | None => if k <? a then Some k else None
+              end
+  end.
+
+Lemma max_below_spec : forall ks a,
+  match max_below ks a with
+  | Some m => In m ks /\ m < a /\ forall k, In k ks -> k < a -> k <= m
+  | None => forall k, In k ks -> a <= k
+  end.
+Proof.
+  induction ks as [|k r IH]; intros a; cbn [max_below].
+  - intros k [].
+  - specialize (IH a). destruct (max_below r a) as [m|].
+    + destruct IH as [Hin [Hlt Hmax]].
+      destruct (k <? a) eqn:E1; cbn [andb].
+      * destruct (m <? k) eqn:E2.
+        -- apply N.ltb_lt in E1, E2. split; [left; reflexivity|]. split; [exact E1|].
+           intros k' [<-|Hk'] Hl; [lia|]. specialize (Hmax k' Hk' Hl). lia.
+        -- apply N.ltb_lt in E1. apply N.ltb_ge in E2. split; [right; exact Hin|]. split; [exact Hlt|].
+           intros k' [<-|Hk'] Hl; [lia|]. apply Hmax; assumption.
+      * apply N.ltb_ge in E1. split; [right; exact Hin|]. split; [exact Hlt|].
+        intros k' [<-|Hk'] Hl; [lia|]. apply Hmax; assumption.
+    + destruct (k <? a) eqn:E1.
+      * apply N.ltb_lt in E1. split; [left; reflexivity|]. split; [exact E1|].
+        intros k' [<-|Hk'] Hl; [lia|]. specialize (IH k' Hk'). lia.
+      * apply N.ltb_ge in E1. intros k' [<-|Hk']; [exact E1|]. apply IH. exact Hk'.
+Qed.
+
+Definition same_side (r a k:N) : Prop := (r <? k) = (a <? k) /\ (r =? k) = (a =? k).
+
+Lemma rep_exists : forall ks a, exists r, In r (reps ks) /\ forall k, In k ks -> same_side r a k.
+Proof.
+  intros ks a. destruct (existsb (N.eqb a) ks) eqn:Hmem.
+  - apply existsb_exists in Hmem. destruct Hmem as [k [Hk E]]. apply N.eqb_eq in E. subst k.
+    exists a. split.
+    + right. apply in_flat_map. exists a. split; [exact Hk|]. right. left. reflexivity.
+    + intros k _. split; reflexivity.
+  - assert (Hnot: forall k, In k ks -> a <> k).
+    { intros k Hk E. subst k. rewrite <- not_true_iff_false in Hmem. apply Hmem. apply existsb_exists. exists a. split; [exact Hk|apply N.eqb_refl]. }
+    pose proof (max_below_spec ks a) as S. destruct (max_below ks a) as [m|].
+    + destruct S as [Hin [Hlt Hmax]]. exists (m + 1). split.
+      * right. apply in_flat_map. exists m. split; [exact Hin|]. right. right. left. reflexivity.
+      * intros k Hk. specialize (Hnot k Hk). unfold same_side.
+        destruct (N.lt_ge_cases k a) as [L|G].
+        -- specialize (Hmax k Hk L).
+           replace (m + 1 <? k) with false by (symmetry; apply N.ltb_ge; lia).
+           replace (a <? k) with false by (symmetry; apply N.ltb_ge; lia).
+           replace (m + 1 =? k) with false by (symmetry; apply N.eqb_neq; lia).
+           replace (a =? k) with false by (symmetry; apply N.eqb_neq; lia). split; reflexivity.
+        -- assert (a < k) by lia.
+           replace (m + 1 <? k) with true by (symmetry; apply N.ltb_lt; lia).
+           replace (a <? k) with true by (symmetry; apply N.ltb_lt; lia).
+           replace (m + 1 =? k) with false by (symmetry; apply N.eqb_neq; lia).
+           replace (a =? k) with false by (symmetry; apply N.eqb_neq; lia). split; reflexivity.
+    + exists 0. split; [left; reflexivity|].
+      intros k Hk. specialize (S k Hk). specialize (Hnot k Hk). unfold same_side. assert (a < k) by lia.
+      replace (0 <? k) with true by (symmetry; apply N.ltb_lt; lia).
+      replace (a <? k) with true by (symmetry; apply N.ltb_lt; lia).
+      replace (0 =? k) with false by (symmetry; apply N.eqb_neq; lia).
+      replace (a =? k) with false by (symmetry; apply N.eqb_neq; lia). split; reflexivity.
+Qed.
+
+Lemma cmp_via : forall x k,
+  (k <? x) = negb (x <? k) && negb (x =? k) /\ (k <=? x) = negb (x <? k) /\ (x <=? k) = (x <? k) || (x =? k).
+Proof.
+  intros x k. destruct (N.compare_spec x k) as [E|L|G].
+  - subst. rewrite N.ltb_irrefl, N.eqb_refl, N.leb_refl. repeat split.
+  - replace (x <? k) with true by (symmetry; apply N.ltb_lt; exact L).
+    replace (x =? k) with false by (symmetry; apply N.eqb_neq; lia).
+    replace (k <? x) with false by (symmetry; apply N.ltb_ge; lia).
+    replace (k <=? x) with false by (symmetry; apply N.leb_gt; lia).
+    replace (x <=? k) with true by (symmetry; apply N.leb_le; lia). repeat split.
+  - replace (x <? k) with false by (symmetry; apply N.ltb_ge; lia).
+    replace (x =? k) with false by (symmetry; apply N.eqb_neq; lia).
+    replace (k <? x) with true by (symmetry; apply N.ltb_lt; lia).
+    replace (k <=? x) with true by (symmetry; apply N.leb_le; lia).
+    replace (x <=? k) with false by (symmetry; apply N.leb_gt; lia). repeat split.
+Qed.
+
+Lemma vx_eval_same : forall e em r a ob,
+  (forall k, In k (vx_consts e) -> same_side r a k) -> vx_eval e em r ob = vx_eval e em a ob.
+Proof.
+  induction e as [ |k|k|k|k|k| | | |e1 IH1|e1 IH1 e2 IH2|e1 IH1 e2 IH2|s]; intros em r a ob H; cbn [vx_eval vx_consts] in *; try reflexivity.
+  - destruct (H k (or_introl eq_refl)) as [A B]. exact A.
+  - destruct (H k (or_introl eq_refl)) as [A B]. destruct (cmp_via r k) as [-> _]. destruct (cmp_via a k) as [-> _]. rewrite A, B. reflexivity.
+  - destruct (H k (or_introl eq_refl)) as [A B]. destruct (cmp_via r k) as [_ [-> _]]. destruct (cmp_via a k) as [_ [-> _]]. rewrite A. reflexivity.
+  - destruct (H k (or_introl eq_refl)) as [A B]. destruct (cmp_via r k) as [_ [_ ->]]. destruct (cmp_via a k) as [_ [_ ->]]. rewrite A, B. reflexivity.
+  - destruct (H k (or_introl eq_refl)) as [A B]. exact B.
+  - rewrite (IH1 em r a ob H). reflexivity.
+  - rewrite (IH1 em r a ob), (IH2 em r a ob); [reflexivity| |]; intros k Hk; apply H; apply in_or_app; [right|left]; exact Hk.
+  - rewrite (IH1 em r a ob), (IH2 em r a ob); [reflexivity| |]; intros k Hk; apply H; apply in_or_app; [right|left]; exact Hk.
+Qed.
+
+Lemma each_problem_same : forall es r a ob,
+  (forall k, In k (flat_map vx_consts es) -> same_side r a k) -> each_problem es r ob = each_problem es a ob.
+Proof.
+  induction es as [|e es IH]; intros r a ob H; [reflexivity|].
+  unfold each_problem in *. cbn [existsb]. cbn [flat_map] in H.
+  rewrite (vx_eval_same e false r a ob) by (intros k Hk; apply H; apply in_or_app; left; exact Hk).
+  rewrite (IH r a ob) by (intros k Hk; apply H; apply in_or_app; right; exact Hk). reflexivity.
+Qed.
+
+Lemma listlevel_indep : forall e em a ob a' ob', vx_listlevel e = true -> vx_eval e em a ob = vx_eval e em a' ob'.
+Proof.
+  induction e; intros em a0 ob a' ob' H; cbn [vx_listlevel vx_eval] in *; try reflexivity; try discriminate.
+  - rewrite (IHe em a0 ob a' ob' H). reflexivity.
+  - apply andb_true_iff in H. destruct H as [H1 H2]. rewrite (IHe1 em a0 ob a' ob' H1), (IHe2 em a0 ob a' ob' H2). reflexivity.
+  - apply andb_true_iff in H. destruct H as [H1 H2]. rewrite (IHe1 em a0 ob a' ob' H1), (IHe2 em a0 ob a' ob' H2). reflexivity.
+Qed.
+
+Lemma forallb_pointwise : forall (A:Type) (f g:A -> bool) l, (forall x, f x = g x) -> forallb f l = forallb g l.
+Proof. intros A f g l H. induction l as [|x l IH]; [reflexivity|]. cbn [forallb]. rewrite H, IH. reflexivity. Qed.
+
+Theorem validate_ok_sound : forall t, validate_ok t = true -> forall cs, tpl_conds_valid t cs = conds_valid cs.
+Proof.
+  intros t H cs. unfold validate_ok in H.
+  repeat (apply andb_true_iff in H; destruct H as [H ?]).
+  match goal with Hx : forallb _ (reps _) = true |- _ => rename Hx into Heach end.
+  match goal with Hx : negb (existsb _ (vt_list t)) = true |- _ => rename Hx into Hne end.
+  match goal with Hx : existsb (fun e => vx_eval e true 0 false) (vt_list t) = true |- _ => rename Hx into Hem end.
+  unfold tpl_conds_valid, conds_valid. f_equal.
+  - destruct cs as [|c cs]; cbn [is_nil].
+    + rewrite Hem. reflexivity.
+    + apply negb_true_iff in Hne. rewrite Hne. reflexivity.
+  - apply forallb_pointwise. intros c.
+    assert (E: each_problem (vt_each t) (c_arg c) (negb (op_valid (c_op c))) = negb ((c_arg c <=? 5) && negb (negb (op_valid (c_op c))))).
+    { destruct (rep_exists (5 :: flat_map vx_consts (vt_each t)) (c_arg c)) as [r [Hr Hs]].
+      rewrite forallb_forall in Heach. specialize (Heach r Hr). rewrite forallb_forall in Heach.
+      assert (Hob: In (negb (op_valid (c_op c))) [true; false]) by (destruct (op_valid (c_op c)); cbn; auto).
+      specialize (Heach _ Hob). apply Bool.eqb_prop in Heach.
+      rewrite <- (each_problem_same (vt_each t) r (c_arg c)) by (intros k Hk; apply Hs; right; exact Hk).
+      rewrite Heach. destruct (Hs 5 (or_introl eq_refl)) as [A B].
+      destruct (cmp_via r 5) as [_ [_ ->]]. destruct (cmp_via (c_arg c) 5) as [_ [_ ->]]. rewrite A, B. reflexivity. }
+    unfold each_problem in E. rewrite E. rewrite negb_involutive. rewrite negb_involutive. reflexivity.
+Qed.
+
+Definition expected_validate_template : validate_tpl :=
+  {| vt_list := [VLenZero]; vt_each := [VOr (VArgLt 0) (VArgGt 5); VOpInvalid] |}.
+Example expected_validate_ok : validate_ok expected_validate_template = true.
+Proof. vm_compute. reflexivity. Qed.
+(* variants that mean the same / something else *)
+Example variant_ge6_ok : validate_ok {| vt_list := [VLenZero]; vt_each := [VNot (VAnd (VNot (VOpInvalid)) (VNot (VArgGe 6)))] |} = true.
+Proof. vm_compute. reflexivity. Qed.
+Example variant_gt6_bad : validate_ok {| vt_list := [VLenZero]; vt_each := [VArgGt 6; VOpInvalid] |} = false.
+Proof. vm_compute. reflexivity. Qed.
+
+
+(** ** Operation.valid as a regenerated template, and the Go-level reading of an Operation value *)
+Inductive opvalid_tpl := OVMemberExact (list_name:string) | OVOther (src:string).
+
+(** the model's operation of a Go Operation value (a string): one of the eight constants, or anything else *)
+Definition documented_operations : list (string * op) :=
+  [("Equal", OpEq); ("NotEqual", OpNe); ("GreaterThan", OpGt); ("LessThan", OpLt); ("GreaterOrEqual", OpGe);
+   ("LessOrEqual", OpLe); ("BitsSet", OpSet); ("BitsNotSet", OpNSet)]%string.
+Fixpoint assoc_op (l:list (string * op)) (s:string) : op :=
+  match l with [] => OpOther | (k, o) :: r => if String.eqb s k then o else assoc_op r s end.
+Definition op_of_go_string (s:string) : op := assoc_op documented_operations s.
+
+Definition same_members (a b:list string) : bool :=
+  forallb (fun x => existsb (String.eqb x) b) a && forallb (fun x => existsb (String.eqb x) a) b.
+
+Lemma existsb_same_members : forall a b s, same_members a b = true -> existsb (String.eqb s) a = existsb (String.eqb s) b.
+Proof.
+  intros a b s H. apply andb_true_iff in H. destruct H as [H1 H2]. rewrite forallb_forall in H1, H2.
+  destruct (existsb (String.eqb s) a) eqn:Ea.
+  - apply existsb_exists in Ea. destruct Ea as [x [Hx E]]. apply String.eqb_eq in E. subst x. symmetry. exact (H1 s Hx).
+  - destruct (existsb (String.eqb s) b) eqn:Eb; [|reflexivity].
+    apply existsb_exists in Eb. destruct Eb as [x [Hx E]]. apply String.eqb_eq in E. subst x. rewrite (H2 s Hx) in Ea. discriminate.
+Qed.
+
+Lemma op_valid_documented : forall s, op_valid (op_of_go_string s) = existsb (String.eqb s) (map fst documented_operations).
+Proof.
+  intros s. unfold op_of_go_string, documented_operations. cbn [assoc_op map fst existsb].
+  repeat match goal with |- context [String.eqb s ?k] => destruct (String.eqb s k); [reflexivity|] end. reflexivity.
+Qed.
+
+(** Operation.valid - membership in the regenerated list [ops] - says exactly "one of the eight constants" *)
+Theorem member_exact_is_op_valid : forall ops, same_members ops (map fst documented_operations) = true ->
+  forall s, existsb (String.eqb s) ops = op_valid (op_of_go_string s).
+Proof. intros ops H s. rewrite op_valid_documented. apply existsb_same_members. exact H. Qed.
